@@ -835,8 +835,88 @@ func (x *fx) alloc(i *ssa.Alloc) {
 		// (or a callee they are handed to) can reach its cell
 		x.cellRefs = append(x.cellRefs, cellRef{ref: ref, closures: cls})
 	}
+	if i.Heap {
+		x.heapAllocs = append(x.heapAllocs, heapAlloc{ref: ref, escapes: escapingUses(i)})
+	}
 	x.vals[i] = &Val{T: i.Type(), S: fmt.Sprintf("(mk-ptr %s %s)", ref, x.idxConst(0))}
 	x.zeroInit(t, ref)
+}
+
+// heapAlloc: an allocation of this activation and the instructions at which a
+// pointer to it (or into it) leaves the function's hands: until one of them has
+// possibly executed, no callee can reach the object.
+type heapAlloc struct {
+	ref     string
+	escapes []ssa.Instruction
+}
+
+func escapingUses(a *ssa.Alloc) []ssa.Instruction {
+	var out []ssa.Instruction
+	seen := map[ssa.Value]bool{}
+	var walk func(v ssa.Value)
+	walk = func(v ssa.Value) {
+		if seen[v] {
+			return
+		}
+		seen[v] = true
+		refs := v.Referrers()
+		if refs == nil {
+			return
+		}
+		for _, r := range *refs {
+			switch r := r.(type) {
+			case *ssa.DebugRef:
+			case *ssa.Store:
+				if r.Val == v {
+					out = append(out, r)
+				}
+			case *ssa.FieldAddr:
+				walk(r)
+			case *ssa.IndexAddr:
+				walk(r)
+			case *ssa.UnOp:
+				// a load through the pointer does not leak the pointer
+				if r.Op != token.MUL {
+					out = append(out, r)
+				}
+			default:
+				out = append(out, r)
+			}
+		}
+	}
+	walk(a)
+	return out
+}
+
+// notYetEscaped: no escaping use of the allocation can have executed before
+// (or is) the instruction at.
+func (x *fx) notYetEscaped(h heapAlloc, at ssa.Instruction) bool {
+	if at == nil || at.Block() == nil {
+		return false
+	}
+	idx := func(in ssa.Instruction) int {
+		for k, j := range in.Block().Instrs {
+			if j == in {
+				return k
+			}
+		}
+		return -1
+	}
+	ai := idx(at)
+	for _, u := range h.escapes {
+		if u == at {
+			return false
+		}
+		if u.Block() == at.Block() && idx(u) < ai {
+			return false
+		}
+		for _, s := range u.Block().Succs {
+			if x.blockReaches(s, at.Block()) {
+				return false
+			}
+		}
+	}
+	return true
 }
 
 func (x *fx) newRef(prefix string) string {
